@@ -141,50 +141,143 @@ PMC = "fdtdx.objects.boundaries.pmc.PerfectMagneticConductor"
 BLO = "fdtdx.objects.boundaries.bloch.BlochBoundary"
 
 
-def _k():
-    return (Rat.atom("k0"), Rat.atom("k1"), Rat.atom("k2"))
-
-
-def run(ctx):
+def _scenarios(tier):
+    """(label, arrays_kw, keyword arguments of _roundtrip) for every composed scene."""
+    sc, later = [], []
     # material tiers x loss
     for comps, se, sh in itertools.product((1, 3), (False, True), (False, True)):
         kw = dict(eps_comps=comps, mu_comps=comps, sigma_e=(comps if se else None), sigma_h=(comps if sh else None))
         tag = f"{'iso' if comps == 1 else 'diag'}:{'sigmaE' if se else ''}{'sigmaH' if sh else ''}" + ("lossless" if not (se or sh) else "")
-        _roundtrip(ctx, f"roundtrip:{tag}", kw)
+        (later if se and sh else sc).append((f"roundtrip:{tag}", kw, {}))
     # scalar (non-magnetic) permeability
-    _roundtrip(ctx, "roundtrip:scalar-mu", dict(eps_comps=3, mu_comps=0))
+    sc.append(("roundtrip:scalar-mu", dict(eps_comps=3, mu_comps=0), {}))
+    n1 = len(sc)  # phase 1 ends here: the plain material tiers with at most one loss
+    sc += later
     # walls on every axis, with the loss on the same and on the other half step
     for axis in range(3):
-        _roundtrip(ctx, f"roundtrip:pec-pmc:axis{axis}", dict(eps_comps=3, mu_comps=3, sigma_e=3), boundaries=[(PEC, axis, "-"), (PMC, axis, "+")])
-        _roundtrip(ctx, f"roundtrip:pmc-pec:sigmaH:axis{axis}", dict(eps_comps=1, mu_comps=1, sigma_h=1), boundaries=[(PMC, axis, "-"), (PEC, axis, "+")])
-    _roundtrip(ctx, "roundtrip:walls-all-axes", dict(eps_comps=3, mu_comps=3), boundaries=[(PEC, a, "-") for a in range(3)] + [(PMC, a, "+") for a in range(3)])
+        sc.append((f"roundtrip:pec-pmc:axis{axis}", dict(eps_comps=3, mu_comps=3, sigma_e=3), dict(boundaries=[(PEC, axis, "-"), (PMC, axis, "+")])))
+        sc.append((f"roundtrip:pmc-pec:sigmaH:axis{axis}", dict(eps_comps=1, mu_comps=1, sigma_h=1), dict(boundaries=[(PMC, axis, "-"), (PEC, axis, "+")])))
+    sc.append(("roundtrip:walls-all-axes", dict(eps_comps=3, mu_comps=3), dict(boundaries=[(PEC, a, "-") for a in range(3)] + [(PMC, a, "+") for a in range(3)])))
     # periodic halos (no phase) on all axes; Bloch phase exp(+-ikL) per axis, complex fields
-    _roundtrip(ctx, "roundtrip:periodic", dict(eps_comps=1, mu_comps=1), boundaries=[(BLO, a, d) for a in range(3) for d in "-+"])
+    sc.append(("roundtrip:periodic", dict(eps_comps=1, mu_comps=1), dict(boundaries=[(BLO, a, d) for a in range(3) for d in "-+"])))
     for axis in range(3):
-        _roundtrip(ctx, f"roundtrip:bloch:axis{axis}", dict(eps_comps=3, mu_comps=3, sigma_e=3), boundaries=[(BLO, axis, d) for d in "-+"], bkw=dict(bloch_vector=_k(), needs_complex_fields=True))
+        sc.append((f"roundtrip:bloch:axis{axis}", dict(eps_comps=3, mu_comps=3, sigma_e=3), dict(boundaries=[(BLO, axis, d) for d in "-+"], bloch=True)))
     # non-uniform grid: each derivative scaled by an opaque metric atom per (axis, stencil)
-    _roundtrip(ctx, "roundtrip:nonuniform:diag:sigmaEsigmaH", dict(eps_comps=3, mu_comps=3, sigma_e=3, sigma_h=3), nonuniform=True)
-    _roundtrip(ctx, "roundtrip:nonuniform:walls", dict(eps_comps=1, mu_comps=1), nonuniform=True, boundaries=[(PEC, 0, "-"), (PMC, 1, "+"), (PEC, 2, "+")])
-    _roundtrip(ctx, "roundtrip:nonuniform:periodic", dict(eps_comps=3, mu_comps=3), nonuniform=True, boundaries=[(BLO, a, d) for a in range(3) for d in "-+"])
+    sc.append(("roundtrip:nonuniform:diag:sigmaEsigmaH", dict(eps_comps=3, mu_comps=3, sigma_e=3, sigma_h=3), dict(nonuniform=True)))
+    sc.append(("roundtrip:nonuniform:walls", dict(eps_comps=1, mu_comps=1), dict(nonuniform=True, boundaries=[(PEC, 0, "-"), (PMC, 1, "+"), (PEC, 2, "+")])))
+    sc.append(("roundtrip:nonuniform:periodic", dict(eps_comps=3, mu_comps=3), dict(nonuniform=True, boundaries=[(BLO, a, d) for a in range(3) for d in "-+"])))
     # fully anisotropic lossless tensors
-    _roundtrip(ctx, "roundtrip:full-eps", dict(eps_comps=9, mu_comps=3))
-    _roundtrip(ctx, "roundtrip:full-mu", dict(eps_comps=3, mu_comps=9))
-    _roundtrip(ctx, "roundtrip:full-both", dict(eps_comps=9, mu_comps=9), with_sources=False)
-    _source_classes(ctx)
-    ctx.require_count("C02", len(ctx.obligations), 90)
+    sc.append(("roundtrip:full-eps", dict(eps_comps=9, mu_comps=3), {}))
+    sc.append(("roundtrip:full-mu", dict(eps_comps=3, mu_comps=9), {}))
+    sc.append(("roundtrip:full-both", dict(eps_comps=9, mu_comps=9), dict(with_sources=False)))
+    n2 = len(sc)
+    if tier == "thorough":
+        # heavier compositions: Bloch phases on two and three axes at once (minutes)
+        for axes in ((0, 1), (1, 2), (0, 2)):
+            sc.append((f"roundtrip:bloch:axes{axes[0]}{axes[1]}", dict(eps_comps=1, mu_comps=1), dict(boundaries=[(BLO, a, d) for a in axes for d in "-+"], bloch=True)))
+        sc.append(("roundtrip:bloch:all-axes", dict(eps_comps=1, mu_comps=1), dict(boundaries=[(BLO, a, d) for a in range(3) for d in "-+"], bloch=True)))
+        sc.append(("roundtrip:full-both:sources", dict(eps_comps=9, mu_comps=9), {}))
+    return sc, (n1, n2, len(sc))
+
+
+def _one(ctx, scen):
+    label, akw, kw = scen
+    kw = dict(kw)
+    if kw.pop("bloch", False):
+        kw["bkw"] = dict(bloch_vector=(Rat.atom("k0"), Rat.atom("k1"), Rat.atom("k2")), needs_complex_fields=True)
+    _roundtrip(ctx, label, akw, **kw)
+
+
+def _work(args):
+    """Worker process: one scene on a private Ctx; returns plain data."""
+    repo, tier, k = args
+    from ..report import Ctx
+
+    c = Ctx("C02", tier, repo, 0)
+    err = None
+    try:
+        _one(c, _scenarios(tier)[0][k])
+    except AnalysisError as e:
+        err = ("analysis", str(e))
+    except RecursionError:
+        err = ("analysis", "RecursionError in analyser")
+    except Exception as e:  # analyser bug (e.g. polynomial guard): never a verdict
+        err = ("analysis", f"internal {type(e).__name__}: {e}")
+    obs = [(o.rule, o.construct, o.ok, o.detail, str(o.extracted), str(o.oracle), o.nontrivial) for o in c.obligations]
+    return k, obs, list(c.units), dict(c.index.consulted), err
+
+
+def _run_scenes(ctx):
+    """All scenes, independent of each other, spread over the cores (serial fallback) and merged in scene
+    order.  Three phases (plain tiers; boundaries / metric / tensors; thorough-only heavy scenes): a phase
+    with a failed obligation ends the run, because on a tree whose round trip is broken the later, larger
+    compositions no longer cancel and only cost time."""
+    import os
+
+    scen, bounds = _scenarios(ctx.tier)
+    first_err = None
+    done = 0
+    lo = 0
+    pool = None
+    workers = min(max(b - a for a, b in zip((0,) + bounds, bounds)), os.cpu_count() or 1, 16)
+    if workers > 1 and not os.environ.get("VERIF_SERIAL"):
+        try:
+            import multiprocessing as mp
+            from concurrent.futures import ProcessPoolExecutor
+
+            pool = ProcessPoolExecutor(max_workers=workers, mp_context=mp.get_context("fork"))
+        except Exception as e:  # no usable process pool here: same work in this process
+            ctx.note(f"process pool unavailable ({type(e).__name__}); scenes run serially")
+    try:
+        for hi in bounds:
+            jobs = [(ctx.repo, ctx.tier, k) for k in range(lo, hi)]
+            lo = hi
+            if not jobs:
+                continue
+            results = None
+            if pool is not None:
+                try:
+                    results = list(pool.map(_work, jobs))
+                except Exception as e:
+                    ctx.note(f"process pool failed ({type(e).__name__}); scenes run serially")
+                    pool = None
+            if results is None:
+                results = [_work(j) for j in jobs]
+            failed = False
+            for k, obs, units, consulted, err in sorted(results, key=lambda r: r[0]):
+                for o in obs:
+                    failed |= not ctx.ob(*o[:4], o[4], o[5], nontrivial=o[6])
+                for u in units:
+                    ctx.unit(u)
+                ctx.index.consulted.update(consulted)
+                if err is not None and first_err is None:
+                    first_err = f"{scen[k][0]}: {err[1]}"
+            done += len(jobs)
+            if failed or first_err is not None:
+                if done < len(scen):
+                    ctx.note(f"stopped after {done} of {len(scen)} scenes: an earlier phase failed")
+                break
+    finally:
+        if pool is not None:
+            pool.shutdown(wait=True, cancel_futures=True)
+    return done, first_err
+
+
+def run(ctx):
+    n, err = _run_scenes(ctx)
+    try:
+        _source_classes(ctx)
+    except AnalysisError as e:
+        err = err or str(e)
+    if err is not None:
+        raise AnalysisError(err)
+    ctx.note(f"{n} forward-then-backward compositions interpreted")
+    if all(o.ok for o in ctx.obligations):  # a failed phase ends the run early; the verdict is then the violation
+        ctx.require_count("C02", len(ctx.obligations), 90)
     ctx.trusted_base.append("abstract source model F + sign*J(name, time argument); that every public source class has this form is rule R2.5 (syntax-tree dataflow, sa/srcflow.py)")
     ctx.trusted_base.append("non-uniform scenarios use one opaque metric atom per (axis, stencil) (its value is C01 rule R1.3)")
     ctx.assume("field state satisfies the wall conditions (the symbolic initial fields are projected with the repo's own wall hooks)")
     ctx.assume("real arithmetic: the identities are exact over the rationals extended by the symbolic atoms; round-off is outside the property")
-
-
-def run_thorough(ctx):
-    """Heavier compositions: Bloch phases on two and three axes at once (several minutes)."""
-    kw = dict(bloch_vector=_k(), needs_complex_fields=True)
-    for axes in ((0, 1), (1, 2), (0, 2)):
-        _roundtrip(ctx, f"roundtrip:bloch:axes{axes[0]}{axes[1]}", dict(eps_comps=1, mu_comps=1), boundaries=[(BLO, a, d) for a in axes for d in "-+"], bkw=kw)
-    _roundtrip(ctx, "roundtrip:bloch:all-axes", dict(eps_comps=1, mu_comps=1), boundaries=[(BLO, a, d) for a in range(3) for d in "-+"], bkw=kw)
-    _roundtrip(ctx, "roundtrip:full-both:sources", dict(eps_comps=9, mu_comps=9))
 
 
 def _source_classes(ctx):
